@@ -26,20 +26,23 @@ from ..sexp import Sym, line as sx
 
 META = dict(
     text="PARTIAL. Proved in Lean for ALL strings (PPProofs/Props/C18.lean, over the regex-engine model "
-         "PPModel/Base/Regex.lean): integer_language, hex_integer_language, signed_integer_language, real_language "
-         "(+ ureal_language, accepts_signOpt) - the pattern read from the live package parses to the pinned AST and the "
-         "AST's preferred re.match consumes the whole string iff the string has the documented syntax (digits / hex "
-         "digits / optional sign + digits / optional sign + digits.digits* or .digits+). For sci_real, fnumber, "
-         "ieee_float, identifier, ipv4_address, mac_address, iso8601_date, iso8601_datetime, uuid, number, fraction, "
-         "ipv6 parts and the quoted-string built-ins only the generated-fact obligations (*_pattern_ast, *_leaves_fact, "
-         "*_quoted_string_fact: live pattern = pinned AST, checked by the kernel on every run) are proved; their "
-         "language theorems are MISSING and acceptance is decided by the oracle (python transcription of the syntax) on "
+         "PPModel/Base/Regex.lean), full strength, each with non-vacuity examples: integer_language, "
+         "hex_integer_language, signed_integer_language, real_language (+ ureal_language, accepts_signOpt), "
+         "uuid_language (8-4-4-4-12 hex digits), iso8601_date_language (yyyy | yyyy-mm | yyyy-mm-dd), fnumber_language "
+         "(+ fnumber_body_language, expo_accepts: optional sign, digits, optional '.' digits*, optional exponent) - the "
+         "pattern read from the live package parses to the pinned AST and the AST's preferred re.match consumes the whole "
+         "string iff the string has the documented syntax. For sci_real, ieee_float, identifier, ipv4_address, "
+         "mac_address (back-reference: needs capture-aware lemmas about the matcher `m`), iso8601_datetime, number, "
+         "fraction, ipv6 parts and the quoted-string built-ins only the generated-fact obligations (*_pattern_ast, "
+         "*_leaves_fact, *_quoted_string_fact: live pattern = pinned AST, checked by the kernel on every run) are proved; "
+         "their language theorems are MISSING and acceptance is decided by the oracle (python transcription of the syntax) on "
          "generated strings. NOT proved (search only, on the real code): value agreement with int()/float()/ipaddress/"
          "uuid/datetime/str.isidentifier; ipv6_address vs ipaddress; QuotedString round trip and verbatim source with "
          "unquote_results=False (reference encoder, all parameter combinations); dbl/sgl/quoted_string + remove_quotes; "
          "nested_expr vs a bracket reader; DelimitedList min/max/trailing delimiter; counted_array exact count. There is "
-         "no Lean model of QuotedString/nested_expr/DelimitedList/counted_array yet. Three open known findings are "
-         "registered (ipv6_embedded_ipv4_forms, delimited_max1_trailing, quoted_numeric_escapes).",
+         "no Lean model of QuotedString/nested_expr/DelimitedList/counted_array yet. Two open known findings are "
+         "registered (ipv6_embedded_ipv4_forms, delimited_max1_trailing); quoted_numeric_escapes is fixed (31e7764) and "
+         "its region (numeric escapes written by the reference encoder) is generated again.",
     note="Trusted: Lean kernel; axioms propext/Classical.choice/Quot.sound; the regex model (parser + matcher `m` + "
          "capture-free `ends` on which the theorems are stated) is a hand-written model of CPython re, validated only "
          "differentially on every run (every built-in pattern x generated strings: match end, groups, ends==m); "
@@ -54,6 +57,8 @@ THEOREMS = [
     "PP.C18.hex_integer_pattern_ast", "PP.C18.hex_integer_language",
     "PP.C18.signed_integer_pattern_ast", "PP.C18.signed_integer_language",
     "PP.C18.real_pattern_ast", "PP.C18.real_language", "PP.C18.ureal_language", "PP.C18.accepts_signOpt",
+    "PP.C18.uuid_language", "PP.C18.iso8601_date_language", "PP.C18.fnumber_language", "PP.C18.fnumber_body_language",
+    "PP.C18.expo_accepts",
     "PP.C18.sci_real_pattern_ast", "PP.C18.fnumber_pattern_ast",
     "PP.C18.ieee_float_pattern_ast", "PP.C18.identifier_pattern_ast", "PP.C18.ipv4_address_pattern_ast",
     "PP.C18.mac_address_pattern_ast", "PP.C18.iso8601_date_pattern_ast", "PP.C18.iso8601_datetime_pattern_ast",
@@ -990,12 +995,17 @@ def quoted_oracle(ctx, pp):
     outcomes = {}
     e = ctx.match_known("quoted_numeric_escapes")
     numeric_ok = e is None
-    if e is not None:
-        w = e["witness"]
+    for ent in ctx.known_entries:
+        if ent.get("signature") != "quoted_numeric_escapes":
+            continue
+        # open: reported as KNOWN-FINDING while it still fails; fixed: an ordinary regression case
+        w = ent["witness"]
         d = check_quoted(pp, w["quoted"], w["content"], w["style"])
+        n += 1
         if d not in (None, "skip"):
             ctx.fail_input("QuotedString does not convert \\xHH / \\uHHHH / \\OOO escapes", w, d[0], d[1],
-                           signature="quoted_numeric_escapes")
+                           theorem="C18 quoted_roundtrip (oracle, search only)",
+                           signature="quoted_numeric_escapes" if ent.get("status", "open") == "open" else None)
     cfgs = qs_configs(rng, ctx.budget(1200, 12000))
     for cfg in cfgs:
         E = cfg["end_quote_char"] or cfg["quote_char"]
